@@ -53,6 +53,11 @@ def run(ctx):
         opts = [dict(prs=b'personal'), dict(PK=rb(nb + 3)), dict(kdf=b'kdf-id'), dict(nonce=rb(16)), dict(key=rb(20), prs=b'p', PK=rb(7), kdf=b'k', nonce=rb(nb))]
         for o in (opts if (big or Nb == 256) else opts[-1:]):
             ev.append(skein_event(Nb, Nb, rb(9), **o)); ctx.mark((Nb, 'opt', str(sorted(o))))
+    # an explicit bit length of 0 on a non-empty buffer is the empty message; outputs far longer than the state (the output counter needs a second byte)
+    for Nb in (256, 512, 1024):
+        ev.append(skein_event(Nb, Nb, rb(1 + Nb // 64), 0)); ev.append(skein_event(Nb, 64, b'\xff', 0, key=b'k')); ctx.mark((Nb, 'bitlen 0'))
+    ev.append(skein_event(256, 256 * 257 + 8, rb(3))); ctx.mark((256, 'long output'))
+    if big: ev.append(skein_event(512, 512 * 256 + 64, rb(70), key=rb(5)))
     from crysp.skein import Skein
     for Nb in (256, 512):
         for m in core.zero_edge_inputs(lambda x: Skein(Nb, Nb)(x), lambda i: b'zs-%d-%d' % (ctx.seed, i), want=1, tries=700):
@@ -70,7 +75,7 @@ def run(ctx):
         for n in (5, 32, 70):
             ev.append(ubi_event(rb(32), rb(n), None, 'msg', 1 + n % 3, pos0)); ctx.mark(('ubi', pos0, n))
     ev.append(ubi_event(rb(64), rb(70), 8 * 70 - 3, 'out', 0, (1 << 64) - 64))
-    ctx.exhaustive_subspaces.append('configuration grid: Nb in {256,512,1024} x No in {8,16,Nb-8,Nb,Nb+8,2Nb,4Nb} x |M| mod Nb/8 boundaries over 0..4 blocks x L mod 8; key forms; optional inputs; tree shapes Yl,Yf in 1..3, Ym in 2..4')
+    ctx.exhaustive_subspaces.append('configuration grid: Nb in {256,512,1024} x No in {8,16,Nb-8,Nb,Nb+8,2Nb,4Nb} (+ one output of 258 blocks) x |M| mod Nb/8 boundaries over 0..4 blocks x L mod 8; key forms; optional inputs; tree shapes Yl,Yf in 1..3, Ym in 2..4')
     ctx.evaluations = len(ev); ctx.sample({k_: v for k_, v in ev[2].items()}); ctx.sample(ev[-1])
     traces = [dict(ev=[e]) for e in ev]
     bad = ctx.validate('trace/Trace_Skein.tla', traces, lambda t: len(t['ev']), what='Trace_Skein')
